@@ -49,11 +49,23 @@ Mags == Around(P63) \cup Around(P64)
 \* hand-picked neighbours of 2^63 / 2^64 only
 Fill(n, k) == [i \in 1..n |-> (k + i * 7) % 10]
 Grid == {<<a, b>> \o Fill(D - 2, k) : a \in 1..9, b \in {0, 4, 5, 9}, D \in 18..21, k \in {0, 5, 9}}
+\* superfluous leading zeros in front of literals of every length class (<= 19, 20, 21+ characters take different routes through
+\* a number parser), and the legitimate look-alikes 0.000..1 / 0e000..1 / 1000..0
+Zeros(k) == [i \in 1..k |-> 48]
+LeadingZeros ==
+  {s \o Zeros(z) \o Bytes(m) \o x : s \in {<<>>, <<MINUS>>}, z \in {1, 2}, m \in Around(P63) \cup Around(P64), x \in {<<>>, <<46, 48>>, <<101, 48>>}}
+  \cup {s \o Zeros(z) \o t : s \in {<<>>, <<MINUS>>}, z \in 1..24, t \in {<<49>>, <<49, 46, 53>>, <<49, 101, 50>>, <<>>, <<46, 49>>, <<101, 49>>}}
+  \cup {s \o <<48, 46>> \o Zeros(z) \o <<49>> : s \in {<<>>, <<MINUS>>}, z \in {17, 18, 19, 20, 21, 24}}
+  \cup {s \o <<48, 101>> \o Zeros(z) \o <<49>> : s \in {<<>>, <<MINUS>>}, z \in {17, 18, 19, 20, 21, 24}}
+  \cup {s \o <<49>> \o Zeros(z) : s \in {<<>>, <<MINUS>>}, z \in 17..24}
+
 ExpSpellings == {<<>>, <<101, 48>>, <<69, 48>>, <<101, 43, 48>>, <<101, 45, 48>>, <<101, 48, 48>>, <<46, 48>>, <<101, 49>>, <<69, 45, 49>>}
 Boundary ==
   {s \o Bytes(m) \o x : s \in {<<>>, <<MINUS>>}, m \in Mags, x \in ExpSpellings}
   \cup {s \o Bytes(m) \o x : s \in {<<>>, <<MINUS>>}, m \in Grid, x \in {<<>>, <<101, 48>>, <<46, 48>>}}
   \cup {<<45, 48>>, <<48, 101, 53>>, <<45, 48, 46, 48>>, <<45, 48, 101, 45, 51>>}
+  \cup LeadingZeros
+
 
 Out(l) ==
   IF IsNumber(l) /\ Finite(l)
